@@ -27,8 +27,11 @@ CONSTANTS Fams,        \* the families explored in this run (subset of DOMAIN Fa
           TokBoost,    \* added to every family's bound on the number of tokens in a pattern
           SubjBoost    \* added to every family's bounds on the subject lengths
 
-VARIABLES fam, mode, toks
-vars == <<fam, mode, toks>>
+VARIABLES fam, mode, toks,
+          tab      \* the family's tables [alpha, maxt, subj]: constant along a behaviour; carried in
+                   \* the state only because TLC re-evaluates constant definitions on every reference
+vars == <<fam, mode, toks, tab>>
+StateKey == <<fam, mode, toks>>     \* VIEW: tab is a function of fam
 
 \* ------------------------------------------------------------------------
 \* Families: token alphabet for patterns, character alphabet and length bound
@@ -61,38 +64,53 @@ EquivA   == <<"[", "=", "a", "=", "]">>
 
 \* alpha: pattern tokens; maxt: token bound;  subjects: every string over `sa` up to
 \* length sn, then every string over the smaller alphabet `la` of length sn+1..ln.
+AllClasses == <<ClsAlpha, ClsDigit, ClsUpper, ClsLower, ClsPunct, ClsSpace, ClsBlank, ClsAlnum, ClsXdigit,
+                ClsWord, ClsGraph, ClsPrint, ClsCntrl, ClsAscii>>
+
 FamDef == [
   \* literals, ? * [ ] with negation, ranges, leading ], escapes, unmatched [
   core  |-> [ alpha |-> Singles(<<"a", "b", "*", "?", "[", "]", "!", "-", "\\", "^">>), maxt |-> 3,
               sa |-> <<"a", "b", "]", "-", "\\", "[", "!", "NL">>, sn |-> 2, la |-> <<"a", "b", "]">>, ln |-> 3,
               modes |-> { {E}, {E, "Shortest"}, {E, "NoGlobStar", "GlobLeadingDot"} } ],
+  \* the same in the default mode only (used with TokBoost in the thorough tier)
+  core1 |-> [ alpha |-> Singles(<<"a", "b", "*", "?", "[", "]", "!", "-", "\\", "^">>), maxt |-> 3,
+              sa |-> <<"a", "b", "]", "-", "\\", "[", "!", "NL">>, sn |-> 2, la |-> <<"a", "b", "]">>, ln |-> 3,
+              modes |-> { {E} } ],
+  \* bracket expressions, exhaustively up to five symbols
+  brk   |-> [ alpha |-> Singles(<<"[", "]", "-", "!", "a">>), maxt |-> 5,
+              sa |-> <<"a", "A", "-", "]", "!", "[", "^", "0">>, sn |-> 1, la |-> <<"a", "-", "]">>, ln |-> 2,
+              modes |-> { {E} } ],
   \* bracket expressions with POSIX classes, bad classes, collating/equivalence
-  cls   |-> [ alpha |-> Singles(<<"a", "1", "[", "]", "!", "-", ":">>)
-                        \o <<ClsAlpha, ClsDigit, ClsUpper, ClsBogus, ClsOpen, CollA, EquivA>>, maxt |-> 3,
+  cls   |-> [ alpha |-> Singles(<<"a", "[", "]", "!", "-", ":">>)
+                        \o <<ClsAlpha, ClsUpper, ClsBogus, ClsOpen, CollA, EquivA>>, maxt |-> 3,
               sa |-> <<"a", "A", "1", "-", ":", "[", "]", ".">>, sn |-> 1, la |-> <<"a", ":", "]", "[">>, ln |-> 2,
               modes |-> { {E} } ],
-  \* every class name, inside a bracket expression
-  clsall |-> [ alpha |-> <<<<"[">>, <<"]">>, <<"!">>, ClsAlpha, ClsDigit, ClsUpper, ClsLower, ClsPunct, ClsSpace,
-                          ClsBlank, ClsAlnum, ClsXdigit, ClsWord, ClsGraph, ClsPrint, ClsCntrl, ClsAscii>>, maxt |-> 3,
+  \* every class name: one token is a whole bracket expression [[:name:]] or [![:name:]]
+  clsall |-> [ alpha |-> [n \in 1..(2 * Len(AllClasses)) |->
+                            IF n <= Len(AllClasses) THEN <<"[">> \o AllClasses[n] \o <<"]">>
+                            ELSE <<"[", "!">> \o AllClasses[n - Len(AllClasses)] \o <<"]">>], maxt |-> 1,
               sa |-> <<"a", "A", "f", "g", "1", "_", "-", " ", "TAB", "NL", "DEL", "eacute", "euro">>, sn |-> 1,
               la |-> <<"a">>, ln |-> 1,
               modes |-> { {E}, {E, "NoGlobCase"} } ],
   \* case-insensitive matching
-  nocase |-> [ alpha |-> Singles(<<"a", "B", "c", "[", "]", "!", "-", "*", "?", "\\">>) \o <<ClsUpper, ClsLower>>, maxt |-> 3,
+  nocase |-> [ alpha |-> Singles(<<"a", "B", "[", "]", "!", "-", "*", "\\">>) \o <<ClsUpper, ClsLower>>, maxt |-> 3,
               sa |-> <<"a", "A", "b", "B", "c", "-">>, sn |-> 2, la |-> <<"a", "B">>, ln |-> 2,
               modes |-> { {E, "NoGlobCase"} } ],
   \* multi-byte characters
-  utf   |-> [ alpha |-> Singles(<<"a", "eacute", "euro", "?", "*", "[", "]", "-", "!", "\\">>), maxt |-> 3,
+  utf   |-> [ alpha |-> Singles(<<"a", "eacute", "?", "*", "[", "]", "-", "\\">>), maxt |-> 3,
               sa |-> <<"a", "eacute", "euro", "z">>, sn |-> 2, la |-> <<"a", "eacute">>, ln |-> 2,
               modes |-> { {E} } ],
   \* extended operators
-  ext   |-> [ alpha |-> Singles(<<"a", "b", "*", "?", "+", "@", "!", "(", ")", "|">>), maxt |-> 4,
+  ext   |-> [ alpha |-> Singles(<<"a", "b", "*", "?", "+", "@", "!", "(", ")", "|">>), maxt |-> 3,
               sa |-> <<"a", "b", "(", ")", "|", "!", "@">>, sn |-> 2, la |-> <<"a", "b">>, ln |-> 3,
               modes |-> { {E, "ExtendedOperators"} } ],
-  extop |-> [ alpha |-> Singles(<<"a", "b", "*", ")", "|">>) \o <<<<"?", "(">>, <<"*", "(">>, <<"+", "(">>, <<"@", "(">>, <<"!", "(">>>>, maxt |-> 4,
+  extop |-> [ alpha |-> Singles(<<"a", "b", "*", ")", "|">>) \o <<<<"?", "(">>, <<"*", "(">>, <<"+", "(">>, <<"@", "(">>, <<"!", "(">>>>, maxt |-> 3,
               sa |-> <<"a", "b", ")">>, sn |-> 3, la |-> <<"a", "b">>, ln |-> 4,
               modes |-> { {E, "ExtendedOperators"} } ],
-  extbr |-> [ alpha |-> Singles(<<"a", "[", "]", ")", "|", "\\", "!">>) \o <<<<"@", "(">>, <<"!", "(">>, <<"*", "(">>>>, maxt |-> 4,
+  extmix |-> [ alpha |-> Singles(<<"a", ")", "|">>) \o <<<<"@", "(">>, <<"!", "(">>, <<"*", "(">>>>, maxt |-> 4,
+              sa |-> <<"a", ")", "|">>, sn |-> 3, la |-> <<"a">>, ln |-> 4,
+              modes |-> { {E, "ExtendedOperators"} } ],
+  extbr |-> [ alpha |-> Singles(<<"a", "[", "]", ")", "|", "\\", "!">>) \o <<<<"@", "(">>, <<"!", "(">>, <<"*", "(">>>>, maxt |-> 3,
               sa |-> <<"a", "[", "]", ")", "|", "!", "\\">>, sn |-> 2, la |-> <<"a", "]">>, ln |-> 3,
               modes |-> { {E, "ExtendedOperators"} } ],
   \* the same metacharacters with the operators switched off are ordinary
@@ -102,8 +120,7 @@ FamDef == [
   \* file names: one path component (what the interpreter passes per component)
   fname |-> [ alpha |-> Singles(<<"a", ".", "*", "?", "[", "]", "!", "\\">>), maxt |-> 3,
               sa |-> <<"a", ".", "b">>, sn |-> 3, la |-> <<"a", ".">>, ln |-> 3,
-              modes |-> { {E, "Filenames"}, {E, "Filenames", "NoGlobStar"},
-                          {E, "Filenames", "GlobLeadingDot"}, {E, "Filenames", "NoGlobStar", "GlobLeadingDot"} } ],
+              modes |-> { {E, "Filenames"}, {E, "Filenames", "NoGlobStar"}, {E, "Filenames", "NoGlobStar", "GlobLeadingDot"} } ],
   \* paths: slashes and **
   path  |-> [ alpha |-> Singles(<<"a", ".", "/", "*", "?", "[", "]", "\\">>), maxt |-> 3,
               sa |-> <<"a", ".", "/">>, sn |-> 4, la |-> <<"a", "/">>, ln |-> 4,
@@ -200,10 +217,15 @@ FindClose(p, j, a) ==
   ELSE IF p[j] = a /\ p[j + 1] = "]" THEN j
   ELSE FindClose(p, j + 1, a)
 
-NoBr   == [ok |-> FALSE, dead |-> FALSE, next |-> 0, items |-> <<>>, bad |-> {}]
+NoBr   == [ok |-> FALSE, dead |-> FALSE, why |-> "", next |-> 0, items |-> <<>>, bad |-> {}]
 \* bash gives up on the whole match (not only on the bracket) when the pattern ends
 \* right after a backslash or after the "-" of a range inside a bracket expression.
-DeadBr == [ok |-> FALSE, dead |-> TRUE, next |-> 0, items |-> <<>>, bad |-> {}]
+\* why = "bs" | "dash";  items = the members scanned before that point.  bash tests members
+\* in order, so when an earlier member matches "[" the dead end after a "-" is never reached
+\* and the "[" is an ordinary character after all (`[[!-` matches the text "[[!-").
+DeadBr(why) == [ok |-> FALSE, dead |-> TRUE, why |-> why, next |-> 0, items |-> <<>>, bad |-> {}]
+\* prepend a scanned member to the result of the rest of the scan
+Pre(rest, item) == IF rest.dead THEN [rest EXCEPT !.items = <<item>> \o @] ELSE rest
 
 \* One end point of a range / one ordinary member at p[j]: [ok, next, c]
 \* (a backslash quotes the next character; at the end of the pattern there is none).
@@ -213,101 +235,100 @@ Endpoint(p, j) ==
        ELSE [ok |-> TRUE, next |-> j + 2, c |-> p[j + 1]]
   ELSE [ok |-> TRUE, next |-> j + 1, c |-> At(p, j)]
 
-RECURSIVE BrScan(_, _, _)
-BrScan(p, j, first) ==
+RECURSIVE BrScan(_, _, _, _)
+BrScan(p, j, first, fn) ==
   LET c == At(p, j) IN
   IF c = "END" THEN NoBr
-  ELSE IF c = "]" /\ ~first THEN [ok |-> TRUE, dead |-> FALSE, next |-> j + 1, items |-> <<>>, bad |-> {}]
+  \* file names: the pattern is cut into path components first, so a bracket
+  \* expression never extends over a slash
+  ELSE IF fn /\ (c = "/" \/ (c = "\\" /\ At(p, j + 1) = "/")) THEN NoBr
+  ELSE IF c = "]" /\ ~first THEN [ok |-> TRUE, dead |-> FALSE, why |-> "", next |-> j + 1, items |-> <<>>, bad |-> {}]
   ELSE IF c = "[" /\ At(p, j + 1) = ":" /\ FindClose(p, j + 2, ":") > 0 THEN
        \* character class [:name:]; an unknown name matches nothing
        LET e    == FindClose(p, j + 2, ":")
            name == SubSeq(p, j + 2, e - 1)
-           rest == BrScan(p, e + 2, FALSE) IN
-       IF ~rest.ok THEN rest
+           rest == BrScan(p, e + 2, FALSE, fn) IN
+       IF ~rest.ok THEN Pre(rest, [t |-> "class", name |-> name])
        ELSE [rest EXCEPT !.items = <<[t |-> "class", name |-> name]>> \o @,
                          !.bad = IF name \in ClassNames THEN @ ELSE @ \cup {"bad-class"}]
   ELSE IF c = "[" /\ At(p, j + 1) \in {".", "="} /\ FindClose(p, j + 2, At(p, j + 1)) > 0 THEN
        \* collating symbol [.x.] / equivalence class [=x=]
        LET e    == FindClose(p, j + 2, At(p, j + 1))
-           rest == BrScan(p, e + 2, FALSE) IN
-       IF ~rest.ok THEN rest
+           rest == BrScan(p, e + 2, FALSE, fn) IN
+       IF ~rest.ok THEN Pre(rest, [t |-> "coll", name |-> SubSeq(p, j + 2, e - 1)])
        ELSE [rest EXCEPT !.items = <<[t |-> "coll", name |-> SubSeq(p, j + 2, e - 1)]>> \o @]
   ELSE
        LET m == Endpoint(p, j) IN
-       IF ~m.ok THEN DeadBr
+       IF ~m.ok THEN DeadBr("bs")
        ELSE IF At(p, m.next) = "-" /\ At(p, m.next + 1) # "]" THEN
             \* range lo-hi; hi is taken as it stands (even "["), a backslash quotes it
             IF At(p, m.next + 1) = "[" /\ At(p, m.next + 2) = "." /\ FindClose(p, m.next + 3, ".") > 0 THEN
                  \* the end point is a collating symbol
                  LET e    == FindClose(p, m.next + 3, ".")
-                     rest == BrScan(p, e + 2, FALSE) IN
-                 IF ~rest.ok THEN rest
+                     rest == BrScan(p, e + 2, FALSE, fn) IN
+                 IF ~rest.ok THEN Pre(rest, [t |-> "collrange", lo |-> m.c, name |-> SubSeq(p, m.next + 3, e - 1)])
                  ELSE [rest EXCEPT !.items = <<[t |-> "collrange", lo |-> m.c, name |-> SubSeq(p, m.next + 3, e - 1)]>> \o @]
             ELSE
             LET h == Endpoint(p, m.next + 1) IN
-            IF ~h.ok \/ h.c = "END" THEN DeadBr
-            ELSE LET rest == BrScan(p, h.next, FALSE) IN
-                 IF ~rest.ok THEN rest
+            IF ~h.ok THEN DeadBr("bs")
+            ELSE IF h.c = "END" THEN DeadBr("dash")
+            ELSE IF fn /\ h.c = "/" THEN NoBr
+            ELSE LET rest == BrScan(p, h.next, FALSE, fn) IN
+                 IF ~rest.ok THEN Pre(rest, [t |-> "range", lo |-> m.c, hi |-> h.c, hiclass |-> FALSE])
                  ELSE [rest EXCEPT !.items = <<[t |-> "range", lo |-> m.c, hi |-> h.c,
                                                 hiclass |-> h.c = "[" /\ At(p, m.next + 1) = "[" /\ At(p, m.next + 2) \in {":", ".", "="}]>> \o @,
                                    !.bad = IF Ord(m.c) > Ord(h.c) THEN @ \cup {"reversed-range"} ELSE @]
-       ELSE LET rest == BrScan(p, m.next, FALSE) IN
-            IF ~rest.ok THEN rest
+       ELSE LET rest == BrScan(p, m.next, FALSE, fn) IN
+            IF ~rest.ok THEN Pre(rest, [t |-> "ch", c |-> m.c])
             ELSE [rest EXCEPT !.items = <<[t |-> "ch", c |-> m.c]>> \o @,
                               !.bad = IF c = "[" /\ At(p, j + 1) = ":" THEN @ \cup {"unterminated-class"} ELSE @]
 
 \* Bracket(p, i): p[i] = "[".  [ok, dead, next, neg, items, bad]
-Bracket(p, i) ==
+Bracket(p, i, fn) ==
   LET neg == At(p, i + 1) \in {"!", "^"}
       j   == IF neg THEN i + 2 ELSE i + 1
-      r   == BrScan(p, j, TRUE) IN
-  [ok |-> r.ok, dead |-> r.dead, next |-> r.next, neg |-> neg, items |-> r.items, bad |-> r.bad]
+      r   == BrScan(p, j, TRUE, fn) IN
+  [ok |-> r.ok, dead |-> r.dead, why |-> r.why, next |-> r.next, neg |-> neg, items |-> r.items, bad |-> r.bad]
 
 \* ------------------------------------------------------------------------
 \* Extended operators: op( alt | alt ... ).  The closing parenthesis is the first
 \* unquoted ")" at nesting depth 0 that is not inside a bracket expression
-\* (bash scans "[" ... "]" spans first; a "[" without "]" hides the rest).
-\* CloseParen(p, j, depth, br): br = 0 outside brackets, else the index of the first
-\* member position of the open bracket (a "]" there does not close it).
-RECURSIVE CloseParen(_, _, _, _)
-CloseParen(p, j, depth, br) ==
-  IF j > Len(p) THEN 0
+\* (bash scans "[" ... "]" spans first; a "[" without "]" hides the rest), every "("
+\* on the way opens a nesting level.
+\* GScan(p, j, b, depth, br, po, X, bars): scan p[j..b].
+\*   br = 0 outside brackets, else the index of the first member position of the open
+\*        bracket (a "]" there does not close it)
+\*   po = the previous character was an unquoted operator character
+\*   bars = FALSE: result is the index of the closing ")" or 0
+\*   bars = TRUE : result is the sequence of the indices of the "|" at depth 0
+\* Under the named deviation "groupscan" (what the code does instead) an unmatched "["
+\* hides nothing and only an operator's "(" opens a nesting level.
+RECURSIVE GScan(_, _, _, _, _, _, _, _)
+GScan(p, j, b, depth, br, po, X, bars) ==
+  IF j > b THEN (IF bars THEN <<>> ELSE 0)
   ELSE LET c == p[j] IN
-    IF c = "\\" THEN CloseParen(p, j + 2, depth, br)
+    IF c = "\\" THEN GScan(p, j + 2, b, depth, br, FALSE, X, bars)
     ELSE IF br > 0 THEN
-         IF c = "]" /\ j # br THEN CloseParen(p, j + 1, depth, 0)
+         IF c = "]" /\ j # br THEN GScan(p, j + 1, b, depth, 0, FALSE, X, bars)
          ELSE IF c = "[" /\ At(p, j + 1) \in {":", ".", "="}
                  /\ FindClose(p, j + 2, At(p, j + 1)) > 0
-              THEN CloseParen(p, FindClose(p, j + 2, At(p, j + 1)) + 2, depth, br)
-         ELSE CloseParen(p, j + 1, depth, br)
-    ELSE IF c = "[" THEN
-         CloseParen(p, j + 1, depth, IF At(p, j + 1) \in {"!", "^"} THEN j + 2 ELSE j + 1)
-    ELSE IF c = "(" THEN CloseParen(p, j + 1, depth + 1, 0)
-    ELSE IF c = ")" THEN IF depth = 0 THEN j ELSE CloseParen(p, j + 1, depth - 1, 0)
-    ELSE CloseParen(p, j + 1, depth, 0)
+              THEN GScan(p, FindClose(p, j + 2, At(p, j + 1)) + 2, b, depth, br, FALSE, X, bars)
+         ELSE GScan(p, j + 1, b, depth, br, FALSE, X, bars)
+    ELSE IF c = "[" /\ ~("groupscan" \in X.dev /\ ~Bracket(p, j, X.fn).ok) THEN
+         GScan(p, j + 1, b, depth, IF At(p, j + 1) \in {"!", "^"} THEN j + 2 ELSE j + 1, FALSE, X, bars)
+    ELSE IF c = "(" /\ ~("groupscan" \in X.dev /\ ~po) THEN GScan(p, j + 1, b, depth + 1, 0, FALSE, X, bars)
+    ELSE IF c = ")" THEN
+         IF depth = 0 THEN (IF bars THEN <<>> ELSE j)
+         ELSE GScan(p, j + 1, b, depth - 1, 0, FALSE, X, bars)
+    ELSE IF c = "|" /\ depth = 0 /\ bars THEN <<j>> \o GScan(p, j + 1, b, depth, 0, FALSE, X, bars)
+    ELSE GScan(p, j + 1, b, depth, 0, c \in ExtOps, X, bars)
 
-\* Positions of the "|" separators at depth 0 between a and b (same scanning rules).
-RECURSIVE BarsIn(_, _, _, _, _)
-BarsIn(p, j, b, depth, br) ==
-  IF j > b THEN <<>>
-  ELSE LET c == p[j] IN
-    IF c = "\\" THEN BarsIn(p, j + 2, b, depth, br)
-    ELSE IF br > 0 THEN
-         IF c = "]" /\ j # br THEN BarsIn(p, j + 1, b, depth, 0)
-         ELSE IF c = "[" /\ At(p, j + 1) \in {":", ".", "="}
-                 /\ FindClose(p, j + 2, At(p, j + 1)) > 0
-              THEN BarsIn(p, FindClose(p, j + 2, At(p, j + 1)) + 2, b, depth, br)
-         ELSE BarsIn(p, j + 1, b, depth, br)
-    ELSE IF c = "[" THEN
-         BarsIn(p, j + 1, b, depth, IF At(p, j + 1) \in {"!", "^"} THEN j + 2 ELSE j + 1)
-    ELSE IF c = "(" THEN BarsIn(p, j + 1, b, depth + 1, 0)
-    ELSE IF c = ")" THEN BarsIn(p, j + 1, b, depth - 1, 0)
-    ELSE IF c = "|" /\ depth = 0 THEN <<j>> \o BarsIn(p, j + 1, b, depth, 0)
-    ELSE BarsIn(p, j + 1, b, depth, 0)
+\* index of the ")" closing the group whose body starts at p[j], or 0
+CloseParen(p, j, X) == GScan(p, j, Len(p), 0, 0, FALSE, X, FALSE)
 
 \* the alternatives of a group whose body is p[a..b]
-AltTexts(p, a, b) ==
-  LET bars == BarsIn(p, a, b, 0, 0)
+AltTexts(p, a, b, X) ==
+  LET bars == GScan(p, a, b, 0, 0, FALSE, X, TRUE)
       cuts == <<a - 1>> \o bars \o <<b + 1>> IN
   [k \in 1..(Len(cuts) - 1) |-> SubSeq(p, cuts[k] + 1, cuts[k + 1] - 1)]
 
@@ -321,52 +342,8 @@ AltTexts(p, a, b) ==
 \*   [k |-> "set", neg, items, bad]
 \*   [k |-> "ext", op, alts] op( alts ), alts = sequence of element sequences
 \*   [k |-> "never"]         nothing can match from here on (see DeadBr)
-\* After an unmatched "[": is there, later in the pattern, a "[:" "[." or "[=" that is
-\* not a complete valid class?  (trigger of the named deviation "openclass")
-ValidClassAt(p, q) == /\ At(p, q + 1) = ":" /\ FindClose(p, q + 2, ":") > 0
-                      /\ SubSeq(p, q + 2, FindClose(p, q + 2, ":") - 1) \in ClassNames
-OpenClassAfter(p, j) ==
-  \E q \in j..Len(p) : p[q] = "[" /\ At(p, q + 1) \in {":", ".", "="} /\ ~ValidClassAt(p, q)
-
-RECURSIVE ParseFrom(_, _, _)
-ParseFrom(p, i, X) ==
-  IF i > Len(p) THEN <<>>
-  ELSE LET c == p[i] IN
-    IF X.ext /\ c \in ExtOps /\ At(p, i + 1) = "(" /\ CloseParen(p, i + 2, 0, 0) > 0 THEN
-         LET e    == CloseParen(p, i + 2, 0, 0)
-             txts == AltTexts(p, i + 2, e - 1) IN
-         <<[k |-> "ext", op |-> c, alts |-> [a \in 1..Len(txts) |-> ParseFrom(txts[a], 1, X)]]>>
-           \o ParseFrom(p, e + 1, X)
-    ELSE IF c = "\\" THEN
-         IF i = Len(p) THEN <<[k |-> "lit", c |-> "\\", bad |-> {"trailing-backslash"}, oc |-> FALSE]>>
-         ELSE <<[k |-> "lit", c |-> p[i + 1], bad |-> {}, oc |-> FALSE]>> \o ParseFrom(p, i + 2, X)
-    ELSE IF c = "*" THEN
-         IF X.gstar /\ At(p, i + 1) = "*" /\ (i = 1 \/ p[i - 1] = "/") /\ At(p, i + 2) \in {"/", "END"}
-         THEN IF At(p, i + 2) = "/"
-              THEN <<[k |-> "gstar", slash |-> TRUE]>> \o ParseFrom(p, i + 3, X)
-              ELSE <<[k |-> "gstar", slash |-> FALSE]>>
-         ELSE IF At(p, i + 1) = "*" THEN ParseFrom(p, i + 1, X)
-         ELSE <<[k |-> "star"]>> \o ParseFrom(p, i + 1, X)
-    ELSE IF c = "?" THEN <<[k |-> "any"]>> \o ParseFrom(p, i + 1, X)
-    ELSE IF c = "[" THEN
-         LET b == Bracket(p, i) IN
-         IF b.ok THEN <<[k |-> "set", neg |-> b.neg, items |-> b.items, bad |-> b.bad, oc |-> FALSE]>> \o ParseFrom(p, b.next, X)
-         ELSE IF b.dead /\ "deadbracket" \notin X.dev THEN
-              <<[k |-> "never", oc |-> OpenClassAfter(p, i + 1),
-                 bad |-> IF p[Len(p)] = "\\" THEN {"trailing-backslash"} ELSE {}]>>
-         ELSE <<[k |-> "lit", c |-> "[", bad |-> {}, oc |-> OpenClassAfter(p, i + 1)]>> \o ParseFrom(p, i + 1, X)
-    ELSE <<[k |-> "lit", c |-> c, bad |-> {}, oc |-> FALSE]>> \o ParseFrom(p, i + 1, X)
-
-ParsePat(p, X) == ParseFrom(p, 1, X)
-
-\* ------------------------------------------------------------------------
-\* Match.  M(els, k, s, i, j, X): the elements els[k..] match exactly s[i..j-1].
-\* s is always the whole subject so that "leading" positions are visible.
-
-LeadDot(s, i, X) == X.fn /\ ~X.dot /\ s[i] = "." /\ (i = 1 \/ s[i - 1] = "/")
-\* may a wildcard (? * [..]) consume s[i] ?
-WildOK(s, i, X) == ~X.fn \/ (s[i] # "/" /\ ~LeadDot(s, i, X))
-
+\*   [k |-> "raw", txt]      the rest of the subject must be exactly txt
+\* membership of a character in one item of a bracket expression
 ItemHas(it, c, X) ==
   CASE it.t = "ch"    -> EqCh(it.c, c, X)
     [] it.t = "range" -> IF X.nocase
@@ -380,6 +357,64 @@ ItemHas(it, c, X) ==
     [] it.t = "coll"  -> it.name = <<c>>
     [] it.t = "collrange" -> Len(it.name) = 1 /\ Ord(it.lo) <= Ord(c) /\ Ord(c) <= Ord(it.name[1])
 InSet(e, c, X) == (\E n \in 1..Len(e.items) : ItemHas(e.items[n], c, X)) # e.neg
+
+\* After an unmatched "[": is there, later in the pattern, a "[:" "[." or "[=" that is
+\* not a complete valid class?  (trigger of the named deviation "openclass")
+ValidClassAt(p, q) == /\ At(p, q + 1) = ":" /\ FindClose(p, q + 2, ":") > 0
+                      /\ SubSeq(p, q + 2, FindClose(p, q + 2, ":") - 1) \in ClassNames
+OpenClassAfter(p, j) ==
+  \E q \in j..Len(p) : p[q] = "[" /\ At(p, q + 1) \in {":", ".", "="} /\ ~ValidClassAt(p, q)
+
+RECURSIVE ParseFrom(_, _, _)
+ParseFrom(p, i, X) ==
+  IF i > Len(p) THEN <<>>
+  ELSE LET c == p[i] IN
+    IF X.ext /\ c \in ExtOps /\ At(p, i + 1) = "(" THEN
+         LET e == CloseParen(p, i + 2, X) IN
+         IF e > 0 THEN
+              LET txts == AltTexts(p, i + 2, e - 1, X) IN
+              <<[k |-> "ext", op |-> c, alts |-> [a \in 1..Len(txts) |-> ParseFrom(txts[a], 1, X)]]>>
+                \o ParseFrom(p, e + 1, X)
+         ELSE \* the parenthesis is never closed: bash compares the rest of the pattern
+              \* text and the rest of the subject as plain strings
+              <<[k |-> "raw", txt |-> SubSeq(p, i, Len(p)), bad |-> {"unclosed-group"}]>>
+    ELSE IF c = "\\" THEN
+         IF i = Len(p) THEN <<[k |-> "lit", c |-> "\\", bad |-> {"trailing-backslash"}, oc |-> FALSE]>>
+         ELSE <<[k |-> "lit", c |-> p[i + 1], bad |-> {}, oc |-> FALSE]>> \o ParseFrom(p, i + 2, X)
+    ELSE IF c = "*" THEN
+         IF X.gstar /\ At(p, i + 1) = "*" /\ (i = 1 \/ p[i - 1] = "/") /\ At(p, i + 2) \in {"/", "END"}
+         THEN IF At(p, i + 2) = "/"
+              THEN <<[k |-> "gstar", slash |-> TRUE]>> \o ParseFrom(p, i + 3, X)
+              ELSE <<[k |-> "gstar", slash |-> FALSE]>>
+         ELSE IF At(p, i + 1) = "*" /\ ~(X.ext /\ At(p, i + 2) = "(") THEN ParseFrom(p, i + 1, X)
+         ELSE <<[k |-> "star"]>> \o ParseFrom(p, i + 1, X)
+    ELSE IF c = "?" THEN <<[k |-> "any"]>> \o ParseFrom(p, i + 1, X)
+    ELSE IF c = "[" THEN
+         LET b == Bracket(p, i, X.fn) IN
+         IF X.fn /\ "slashbracket" \in X.dev /\ ~b.ok /\ Bracket(p, i, FALSE).ok THEN
+              \* (deviation) the text of a bracket expression that contains a slash, taken literally
+              LET e == Bracket(p, i, FALSE).next IN
+              [n \in 1..(e - i) |-> [k |-> "lit", c |-> p[i + n - 1], bad |-> {}, oc |-> FALSE]] \o ParseFrom(p, e, X)
+         ELSE IF b.ok THEN <<[k |-> "set", neg |-> b.neg, items |-> b.items, bad |-> b.bad, oc |-> FALSE,
+                         dashfirst |-> LET j0 == IF b.neg THEN i + 2 ELSE i + 1 IN p[j0] = "-" /\ At(p, j0 + 1) # "]"]>>
+                        \o ParseFrom(p, b.next, X)
+         ELSE IF /\ b.dead /\ "deadbracket" \notin X.dev
+                 /\ ~(b.why = "dash" /\ \E n \in 1..Len(b.items) : ItemHas(b.items[n], "[", X)) THEN
+              <<[k |-> "never", oc |-> OpenClassAfter(p, i + 1),
+                 bad |-> IF p[Len(p)] = "\\" THEN {"trailing-backslash"} ELSE {}]>>
+         ELSE <<[k |-> "lit", c |-> "[", bad |-> {}, oc |-> OpenClassAfter(p, i + 1)]>> \o ParseFrom(p, i + 1, X)
+    ELSE <<[k |-> "lit", c |-> c, bad |-> {}, oc |-> FALSE]>> \o ParseFrom(p, i + 1, X)
+
+ParsePat(p, X) == ParseFrom(p, 1, X)
+
+\* ------------------------------------------------------------------------
+\* Match.  M(els, k, s, i, j, X): the elements els[k..] match exactly s[i..j-1].
+\* s is always the whole subject so that "leading" positions are visible.
+
+LeadDot(s, i, X) == X.fn /\ ~X.dot /\ s[i] = "." /\ (i = 1 \/ s[i - 1] = "/")
+HasLeadDot(s, X) == \E i \in 1..Len(s) : LeadDot(s, i, X)
+\* may a wildcard (? * [..]) consume s[i] ?
+WildOK(s, i, X) == ~X.fn \/ (s[i] # "/" /\ ~LeadDot(s, i, X))
 
 RECURSIVE M(_, _, _, _, _, _), AltM(_, _, _, _, _), RepM(_, _, _, _, _)
 ExtM(e, s, i, m, X) ==
@@ -413,6 +448,7 @@ M(els, k, s, i, j, X) ==
                             /\ M(els, k + 1, s, m, j, X)
       [] e.k = "ext"  -> \E m \in i..j : ExtM(e, s, i, m, X) /\ M(els, k + 1, s, m, j, X)
       [] e.k = "never" -> FALSE
+      [] e.k = "raw"   -> SubSeq(s, i, j - 1) = e.txt /\ k = Len(els)
 
 Match(els, s, X) == M(els, 1, s, 1, Len(s) + 1, X)
 
@@ -420,7 +456,7 @@ Match(els, s, X) == M(els, 1, s, 1, Len(s) + 1, X)
 \* Malformed constructs (POSIX: undefined / invalid) present in the parsed pattern.
 RECURSIVE BadOf(_)
 BadOf(els) ==
-  UNION { IF els[n].k \in {"lit", "set", "never"} THEN els[n].bad
+  UNION { IF els[n].k \in {"lit", "set", "never", "raw"} THEN els[n].bad
           ELSE IF els[n].k = "ext" THEN UNION { BadOf(els[n].alts[a]) : a \in 1..Len(els[n].alts) }
           ELSE {} : n \in 1..Len(els) }
 
@@ -435,6 +471,9 @@ ElHas(e, tag) ==
     [] tag = "neg"       -> e.k = "ext" /\ e.op = "!"
     [] tag = "never"     -> e.k = "never"
     [] tag = "oc"        -> e.k \in {"lit", "never"} /\ e.oc
+    [] tag = "dashfirst" -> e.k = "set" /\ e.dashfirst
+    [] tag = "group"     -> e.k = "ext"
+    [] tag = "wild"      -> e.k \in {"any", "star", "gstar", "set", "ext"}
 RECURSIVE AnyEl(_, _)
 AnyEl(els, tag) ==
   \E n \in 1..Len(els) :
@@ -461,10 +500,27 @@ AnyEl(els, tag) ==
 \*  nocaseclass  [[:upper:]] / [[:lower:]] under NoGlobCase: bash tests the character as it
 \*               stands, the code folds the class ((?i) in the regexp).
 \*  asciiclass   classes are ASCII-only in the code; bash classifies by locale (UTF-8).
-\* Divergence with a trigger class only (no alternative semantics; reported under its name):
+\*  groupscan    how the ")" closing an extended group is found: bash lets an unmatched "["
+\*               hide the rest and counts every "(" as a nesting level; the code takes such
+\*               a "[" and a "(" that follows no operator as ordinary characters.
+\*  slashbracket Filenames: a "[" ... "]" span that contains a slash is no bracket expression;
+\*               POSIX and bash then take only the "[" as an ordinary character and read on
+\*               (`[/*]` = "[/" star "]"), the code takes the text of the whole span literally,
+\*               backslashes included.
+\* Divergences with a trigger class and a scope (the subjects on which the code may differ)
+\* instead of an alternative semantics; reported under their name:
+\*  leadingdot   Filenames without GlobLeadingDot: bash never lets "?", "*" or a bracket
+\*               expression match a leading period (first character or after "/"), not even a
+\*               star that matches nothing (`*.a` does not match ".a"); the code only keeps a
+\*               star that starts a path component from consuming it.  Scope: subjects that
+\*               have a leading period.
+\*  dashfirst    a bracket expression whose first member is "-" followed by more members
+\*               (`[-0-9]`, `[--]`, `[^-Z]`): the "-" is an ordinary member; the code takes it as
+\*               a range operator whose start is the "[" (or "!" "^") before it and reports
+\*               "invalid range" when that character sorts after the next one.
 \*  rangeclass   a range whose end point is a "[" that is followed by ":" "." or "=", as in
 \*               [:-[:alpha:]: bash takes the "[" as the end point, the code starts a class.
-Devs(els, X) ==
+Devs(p, els, X) ==
   (IF AnyEl(els, "coll") THEN {"collating"} ELSE {})
   \cup (IF AnyEl(els, "oc") THEN {"openclass"} ELSE {})
   \cup (IF AnyEl(els, "neg") THEN {"negext"} ELSE {})
@@ -472,7 +528,23 @@ Devs(els, X) ==
   \cup (IF X.nocase /\ AnyEl(els, "caseclass") THEN {"nocaseclass"} ELSE {})
   \cup (IF AnyEl(els, "class") THEN {"asciiclass"} ELSE {})
   \cup (IF AnyEl(els, "rangeclass") THEN {"rangeclass"} ELSE {})
-AltDevs == {"deadbracket", "nocaseclass", "asciiclass"}
+  \cup (IF X.fn /\ ~X.dot /\ AnyEl(els, "wild") THEN {"leadingdot"} ELSE {})
+  \cup (IF AnyEl(els, "dashfirst") THEN {"dashfirst"} ELSE {})
+  \cup (IF X.fn /\ "slashbracket" \notin X.dev /\ ParsePat(p, WithDev(X, {"slashbracket"})) # els
+        THEN {"slashbracket"} ELSE {})
+  \cup (IF X.ext /\ "groupscan" \notin X.dev /\ ParsePat(p, WithDev(X, {"groupscan"})) # els
+        THEN {"groupscan"} ELSE {})
+AltDevs == {"deadbracket", "nocaseclass", "asciiclass", "groupscan", "slashbracket"}
+
+\* Places where bash 5.2 itself departs from its manual (the oracle is not used there):
+\*  starnullable  a star directly followed by a @( +( or !( group: bash never tries the
+\*                star against the whole rest of the subject, so the group cannot match the
+\*                empty string at the end (`*@(|a)` does not match "b", `*!(a)` not "a").
+RECURSIVE StarThenGroup(_)
+StarThenGroup(els) ==
+  \/ \E n \in 1..(Len(els) - 1) : els[n].k = "star" /\ els[n + 1].k = "ext" /\ els[n + 1].op \in {"@", "+", "!"}
+  \/ \E n \in 1..Len(els) : els[n].k = "ext" /\ \E a \in 1..Len(els[n].alts) : StarThenGroup(els[n].alts[a])
+Quirks(els) == IF StarThenGroup(els) THEN {"starnullable"} ELSE {}
 
 \* ------------------------------------------------------------------------
 \* C18: QuoteMeta / HasMeta / Unescape over pattern texts (default mode).
@@ -505,10 +577,11 @@ Unescape(p) ==
 Init == /\ fam \in Fams
         /\ mode \in FamDef[fam].modes
         /\ toks = <<>>
+        /\ tab = [alpha |-> FamDef[fam].alpha, maxt |-> FamDef[fam].maxt + TokBoost, subj |-> SubjTab[fam]]
 
-AddTok == /\ Len(toks) < FamDef[fam].maxt + TokBoost
-          /\ \E n \in 1..Len(FamDef[fam].alpha) : toks' = Append(toks, FamDef[fam].alpha[n])
-          /\ UNCHANGED <<fam, mode>>
+AddTok == /\ Len(toks) < tab.maxt
+          /\ \E n \in 1..Len(tab.alpha) : toks' = Append(toks, tab.alpha[n])
+          /\ UNCHANGED <<fam, mode, tab>>
 Next == AddTok
 Spec == Init /\ [][Next]_vars
 
@@ -522,10 +595,10 @@ View ==
   LET X    == Opt(mode)
       p    == Pat
       els  == ParsePat(p, X)
-      subj == SubjTab[fam]
+      subj == tab.subj
       acc  == MatchSetOf(els, subj, X)
       un   == Unescape(p)
-      devs == Devs(els, X)
+      devs == Devs(p, els, X)
       XD   == WithDev(X, devs \cap AltDevs)
       elsD == ParsePat(p, XD)
   IN [ fam |-> fam, mode |-> mode, pat |-> p,
@@ -536,16 +609,23 @@ View ==
        xacc  |-> <<Match(els, p, X), Match(els, un, X)>>,
        malformed |-> BadOf(els),
        devs |-> devs,
+       quirks |-> Quirks(els),
+       hasgroup |-> AnyEl(els, "group"),
        \* what the code is known to compute instead, when a deviation with an
        \* alternative semantics is triggered
        alt  |-> IF devs \cap AltDevs = {} THEN [on |-> FALSE]
                 ELSE [on |-> TRUE, acc |-> MatchSetOf(elsD, subj, XD),
                       xacc |-> <<Match(elsD, p, XD), Match(elsD, un, XD)>>],
+       scope |-> IF "leadingdot" \in devs
+                 THEN { n \in 1..Len(subj) : HasLeadDot(subj[n], X) }
+                      \cup (IF HasLeadDot(p, X) THEN {Len(subj) + 1} ELSE {})
+                      \cup (IF HasLeadDot(un, X) THEN {Len(subj) + 2} ELSE {})
+                 ELSE {},
        hasmeta |-> HasMeta(p),
        nontrivial |-> HasMeta(p) /\ acc # {} /\ Cardinality(acc) < Len(subj) ]
 
 Emit == /\ PrintT(<<"VEC", ToJson(View)>>)
-        /\ (toks = <<>> => PrintT(<<"STAT", ToJson([fam |-> fam, subjects |-> SubjTab[fam]])>>))
+        /\ (toks = <<>> => PrintT(<<"STAT", ToJson([fam |-> fam, subjects |-> tab.subj])>>))
 EmitInv == Emit
 
 \* ------------------------------------------------------------------------
@@ -556,37 +636,11 @@ EmitInv == Emit
 \* language: Shortest (with EntireString), and NoGlobStar/GlobLeadingDot without Filenames.
 ModeIrrelevance ==
   LET p == Pat
-      all == SubjTab[fam]
+      all == tab.subj
       subj == SubSeq(all, 1, IF Len(all) < 40 THEN Len(all) ELSE 40)
       base == mode \ {"Shortest", "NoGlobStar", "GlobLeadingDot"} IN
   ("Filenames" \notin mode /\ base # mode) =>
      MatchSetOf(ParsePat(p, Opt(mode)), subj, Opt(mode)) = MatchSetOf(ParsePat(p, Opt(base)), subj, Opt(base))
-
-\* A pattern without extended operators means the same with the operators enabled,
-\* unless it contains an operator spelling.
-\* C18, first statement: QuoteMeta(s) has no metacharacters and matches s and nothing else.
-QuoteLaw ==
-  LET s == Pat
-      X == Opt({E})
-      q == QuoteMeta(s)
-      els == ParsePat(q, X)
-      subj == SubjTab[fam] IN
-  /\ ~HasMeta(q)
-  /\ Match(els, s, X)
-  /\ \A n \in 1..Len(subj) : Match(els, subj[n], X) => subj[n] = s
-  /\ Unescape(q) = s
-  /\ BadOf(els) = {}
-
-\* C18, second statement: without metacharacters a pattern matches at most one string,
-\* the pattern with its escapes removed.
-NoMetaLaw ==
-  LET p == Pat
-      X == Opt({E})
-      els == ParsePat(p, X)
-      subj == SubjTab[fam] IN
-  ~HasMeta(p) =>
-     /\ \A n \in 1..Len(subj) : Match(els, subj[n], X) => subj[n] = Unescape(p)
-     /\ Match(els, Unescape(p), X)
 
 \* Literal elements only iff no metacharacter is active (ties HasMeta to ParsePat).
 LiteralLaw ==
